@@ -64,6 +64,8 @@ type world struct {
 	statePath string
 	mgr     []string // manager-call trace of the hold under observation (traceHold), one line per event
 	smgr    map[string][]string // per observed lock name (traceNames): header, then one line per event
+	thist   []string            // per observed lock name: the Lock/TryLock/Unlock calls as a history for the threaded model M1t
+	reqCancel map[string]context.CancelFunc // per-request contexts (lockReq) by label
 }
 
 // traceNames does the same for every hold of the given lock names (one hold per name in the C06
@@ -225,6 +227,35 @@ func (w *world) lock(th, sid, name string, size, lt, wt *int32, label string) {
 		w.mu.Unlock()
 	}
 	w.end(c, ok, key, err)
+}
+// lockReq is a blocking Lock whose REQUEST context (a child of the session's context, as over gRPC)
+// can be cancelled on its own by cancelReq(label) while the session stays connected.
+func (w *world) lockReq(th, sid, name string, size, lt, wt *int32, label string) {
+	w.mu.Lock()
+	rc, cancel := context.WithCancel(w.sess[sid])
+	if w.reqCancel == nil {
+		w.reqCancel = map[string]context.CancelFunc{}
+	}
+	w.reqCancel[label] = cancel
+	w.mu.Unlock()
+	c := w.begin(th, "lock", name, "")
+	lk, err := w.ls.Lock(rc, name, size, lt, wt)
+	ok, key := lk != nil && lk.Locked, ""
+	if ok {
+		key = lk.Key
+		w.mu.Lock()
+		w.keys[label] = key
+		w.mu.Unlock()
+	}
+	w.end(c, ok, key, err)
+}
+func (w *world) cancelReq(label string) {
+	w.mu.Lock()
+	cancel := w.reqCancel[label]
+	w.mu.Unlock()
+	if cancel != nil {
+		cancel()
+	}
 }
 func (w *world) unlock(th, sid, name, label string) {
 	w.mu.Lock()
@@ -431,6 +462,7 @@ func finish(w *world, extra func()) conc.Outcome {
 	det["violations"] = vs
 	det["acks"] = w.acks
 	det["mgrtrace"] = append([]string{}, w.mgr...)
+	det["threadhist"] = append([]string{}, w.thist...)
 	if w.smgr != nil {
 		st := []string{}
 		for _, n := range common.SortedKeys(w.smgr) {
@@ -486,7 +518,7 @@ func templates() []template {
 				Ticks: []time.Duration{1},
 				Finish: func(c any) conc.Outcome {
 					w := c.(*world)
-					return finish(w, func() { capacityMonitor(w, "x", 1, 0) })
+					return finish(w, func() { capacityMonitor(w, "x", 1, 0); threadHistory(w, "x", 1, nil) })
 				},
 			}
 		}},
@@ -507,6 +539,7 @@ func templates() []template {
 					w := c.(*world)
 					return finish(w, func() {
 						capacityMonitor(w, "x", 1, 1)
+						threadHistory(w, "x", 1, []string{w.keys["h"]})
 						for _, cl := range w.calls {
 							if cl.Done && cl.Err != "-" && cl.Err != "LockWaitTimeout" {
 								w.v("conc:gc:request-failed", "%s %s(%s) failed with %s while only a GC pass ran concurrently", cl.Thread, cl.Kind, cl.Name, cl.Err)
@@ -624,6 +657,7 @@ func templates() []template {
 					return finish(w, func() {
 						waiterMonitor(w, "x", 1)
 						capacityMonitor(w, "x", 1, 1)
+						threadHistory(w, "x", 1, []string{w.keys["h"]})
 					})
 				},
 			}
@@ -1061,7 +1095,82 @@ func earlyTimeout(w *world, wt map[string]int64) {
 // linearizable (C02): is there a sequential order of the completed Lock/TryLock/Unlock calls on one
 // lock, consistent with real-time precedence, that a counting lock with keys explains?  Calls that
 // did not return may take effect or not. (Brute force: programs have at most 5 calls.)
+// threadHistory records the Lock / TryLock / Unlock calls on one lock name as a history for the
+// threaded lock-table model M1t (driver linthreads): invocation and return events in the order they
+// happened, keys as labels (i<n> initial hold, c<n> key given to call n, u<n> a key nobody holds), the
+// result as a class (1, 0, n = lock does not exist, c = gave up, r = refused before the lock object).
+func threadHistory(w *world, name string, size int, initial []string) {
+	type ev struct {
+		seq  int
+		line string
+	}
+	var evs []ev
+	label := map[string]string{}
+	for i, k := range initial {
+		label[k] = fmt.Sprintf("i%d", i)
+	}
+	id := 0
+	var cs []*call
+	for _, c := range w.calls {
+		if c.Name == name && (c.Kind == "lock" || c.Kind == "trylock" || c.Kind == "unlock") && c.Thread != "setup" {
+			cs = append(cs, c)
+		}
+	}
+	if len(cs) == 0 || len(cs) > 8 {
+		return
+	}
+	for i, c := range cs { // keys granted by the calls themselves
+		if c.Kind != "unlock" && c.Done && c.Ok && c.Key != "" {
+			label[c.Key] = fmt.Sprintf("c%d", i+1)
+		}
+	}
+	for i, c := range cs {
+		id = i + 1
+		key := fmt.Sprintf("c%d", id)
+		if c.Kind == "unlock" {
+			if l, ok := label[c.Key]; ok {
+				key = l
+			} else {
+				key = fmt.Sprintf("u%d", id)
+			}
+		}
+		evs = append(evs, ev{c.Seq0, fmt.Sprintf("inv %d %s %s", id, c.Kind, key)})
+		if !c.Done {
+			continue
+		}
+		cls := "?"
+		switch {
+		case c.Ok:
+			cls = "1"
+		case c.Err == "-" || c.Err == "InvalidLockKey":
+			cls = "0"
+		case c.Err == "LockDoesNotExist":
+			cls = "n"
+		case c.Err == "LockWaitTimeout" || c.Err == "Canceled" || c.Err == "ManagerShutdown":
+			cls = "c"
+		case c.Err == "LockSizeMismatch" || c.Err == "InvalidLockSize":
+			cls = "r"
+		}
+		evs = append(evs, ev{c.Seq1, fmt.Sprintf("ret %d %s", id, cls)})
+	}
+	sort.Slice(evs, func(i, j int) bool { return evs[i].seq < evs[j].seq })
+	ks := "-"
+	if len(initial) > 0 {
+		ls := []string{}
+		for i := range initial {
+			ls = append(ls, fmt.Sprintf("i%d", i))
+		}
+		ks = strings.Join(ls, ",")
+	}
+	lines := []string{fmt.Sprintf("hist size=%d keys=%s", size, ks)}
+	for _, e := range evs {
+		lines = append(lines, e.line)
+	}
+	w.thist = append(w.thist, strings.Join(lines, "\n"))
+}
+
 func linearizable(w *world, name string, size int, initial []string) {
+	threadHistory(w, name, size, initial)
 	var cs []*call
 	for _, c := range w.calls {
 		if c.Name == name && (c.Kind == "lock" || c.Kind == "trylock" || c.Kind == "unlock") && c.Thread != "setup" {
@@ -1310,6 +1419,7 @@ func TestConc(t *testing.T) {
 		outcomes := map[string]int{}
 		traces := map[string]func() map[string]any{}  // distinct manager-call traces -> replay of the first schedule that produced it
 		straces := map[string]func() map[string]any{} // the same per observed hold of an ending session (M3b)
+		ttraces := map[string]func() map[string]any{} // Lock/TryLock/Unlock call histories per lock name (M1t)
 		bound := tp.bound
 		if common.Thorough() {
 			bound++
@@ -1331,6 +1441,13 @@ func TestConc(t *testing.T) {
 				for _, k := range sts {
 					if _, seen := straces[k]; !seen {
 						straces[k] = rp
+					}
+				}
+			}
+			if ths, ok := r.Outcome.Detail["threadhist"].([]string); ok && (prop == "C01" || prop == "C02" || prop == "C03" || prop == "C13") && len(r.Panics) == 0 {
+				for _, k := range ths {
+					if _, seen := ttraces[k]; !seen {
+						ttraces[k] = rp
 					}
 				}
 			}
@@ -1368,6 +1485,7 @@ func TestConc(t *testing.T) {
 		}
 		validateTraces(t, res, prop, tp.name, traces, "linlease", "lease", "the lease model M3a")
 		validateTraces(t, res, prop, tp.name, straces, "linsess", "session-end", "the session-end model M3b")
+		validateTraces(t, res, prop, tp.name, ttraces, "linthreads", "threads", "the threaded lock-table model M1t")
 		res.CountN("distinct-outcomes:"+tp.name, len(outcomes))
 		ks := common.SortedKeys(outcomes)
 		if len(ks) > 0 {
